@@ -528,6 +528,8 @@ def evaluate(struct, theta, kseed, stage, nkeys):
 
 def is_exact(struct):
     """every draw is enumerated: the estimate is the same exact number for every key"""
+    if struct["objective"] == "IWELBO":
+        return False  # (enumerable proposals are excluded while iwelbo_adev_guide_batching is open)
     kinds = [struct["g1"]]
     if struct.get("g1b"):
         kinds.append(struct["g1b"])
@@ -742,26 +744,35 @@ def is_nontrivial(struct):
 
 
 def plan(ctx):
-    """work units (struct, rep) of this shard; heavy structures are spread first"""
-    S = all_structures(ctx.tier)
-    S = sorted(S, key=lambda s: -s["cost"])
-    reps = max(1, -(-ctx.nshards // len(S)))
+    """work units (struct, rep) of this shard. Structures that run are dealt round-robin, the most
+    expensive first; structures skipped for an open finding cost nothing and are dealt separately."""
+    S = sorted(all_structures(ctx.tier), key=lambda s: -s["cost"])
+    skip = [s for s in S if needs_open_exclusion(s) and ctx.is_open(OPEN_IWELBO)]
+    live = [s for s in S if not (needs_open_exclusion(s) and ctx.is_open(OPEN_IWELBO))]
+    reps = max(1, -(-ctx.nshards // len(live)))
     units = []
     u = 0
     for rep in range(reps):
-        for s in S:
-            units.append((u % ctx.nshards, s, rep))
+        for s in live:
+            units.append((u % ctx.nshards, s, rep, True))
             u += 1
-    return [(s, rep) for sh, s, rep in units if sh == ctx.shard]
+    for rep in range(reps):
+        for s in skip:
+            units.append((u % ctx.nshards, s, rep, False))
+            u += 1
+    return [(s, rep, go) for sh, s, rep, go in units if sh == ctx.shard]
 
 
 def run(ctx):
+    import os
+    import time
+
     self_test_once()
     n = ctx.pick(20000, 200000)
-    n_examples = ctx.pick(3, 6)
-    for struct, rep in plan(ctx):
+    n_examples = ctx.pick(4, 10)
+    for struct, rep, go in plan(ctx):
         sid = struct_id(struct)
-        if needs_open_exclusion(struct) and ctx.is_open(OPEN_IWELBO):
+        if not go:
             for _ in range(n_examples):
                 ctx.exclude(OPEN_IWELBO)
             continue
@@ -770,7 +781,10 @@ def run(ctx):
             ctx.note_case(case, nontrivial=is_nontrivial(struct), classes=classes_of(struct))
             check_case(case, ctx)
 
+        t0 = time.time()
         ctx.run_hypothesis(case_strategy(struct, n), chk, n_examples, salt=f"{sid}#{rep}")
+        if os.environ.get("C30_TIMING"):
+            ctx.extra[f"time {sid}#{rep} shard{ctx.shard}"] = f"{time.time() - t0:.1f}s"
     ctx.extra["keys_per_stage1"] = n if ctx.shard == 0 else 0
 
 
@@ -798,9 +812,9 @@ def probes(ctx, only=None):
             g = evaluate(struct, theta, 0, 0, 16)
             fails = not np.all(np.isfinite(g))
             what = "IWELBO(normal_reparam guide, N=2) returned non-finite gradients"
-        except NotImplementedError as e:
+        except Exception as e:  # NotImplementedError from batch_primitive while the finding is open
             fails = True
-            what = f"IWELBO(normal_reparam guide, N=2) raises NotImplementedError {e}"
+            what = f"IWELBO(normal_reparam guide, N=2) raises {type(e).__name__} {str(e)[:200]}"
         ctx.probe(OPEN_IWELBO, fails, what)
     if only in (None, FIXED_MARGINAL):
         # DESIGN section 6 row 24: unit Normal-Normal pair, v = 2, guide N(0.5, 0.8):
